@@ -170,6 +170,8 @@ class ModBuilder:
         if kind == "single":
             return h.Instance(of=tgt)
         if kind == "array":
+            if i.get("via") == "mult":  # `n * Instance(...)`: the scalar Instance is thrown away
+                return i["n"] * h.Instance(of=tgt)
             return h.InstanceArray(of=tgt, n=i["n"])
         if kind == "pair":
             return h.Pair(tgt)
